@@ -9,13 +9,18 @@ def _texts(j):
     return [None, "# t\n\n- 24010%d#01 one #w\n" % (j + 1), "# t\n\n- 24010%d#01 two #w k::v%d\n" % (j + 1, j), "# t\n\n- fresh%d\n" % j,
             "# t\n\n- 240509#0%d fresh%d\n" % (j, j),
             # an edited note AND a new ZID-less note on one page: two write-backs are queued for it
-            "# t\n\n- 24010%d#01 two #w k::v%d\n- fresh%d\n" % (j + 1, j, j)]
+            "# t\n\n- 24010%d#01 two #w k::v%d\n- fresh%d\n" % (j + 1, j, j),
+            # two stamped notes, the SECOND with a tag and a property no other note carries (removing the page from the
+            # real repo deletes those rows while the first note's deletion is already pending) ...
+            "# t\n\n- 24010%d#01 one #w\n- 24010%d#02 other #u%d j::x%d\n" % (j + 1, j + 1, j, j),
+            # ... and the same page with its FIRST note edited
+            "# t\n\n- 24010%d#01 two #w\n- 24010%d#02 other #u%d j::x%d\n" % (j + 1, j + 1, j, j)]
 
 
 TEXTS = [_texts(0), _texts(1)]
-FILE_STATES = [0, 1, 2, 3, 5]         # indices into TEXTS[j]: absent, v1, v2, vn, v2 + vn
-INDEX_STATES = [0, 1, 2, 4]           # absent, v1, v2, vnz
-HASH_STATES = [0, 1, 2, 4]
+FILE_STATES = [0, 1, 2, 3, 5, 6, 7]   # indices into TEXTS[j]: absent, v1, v2, vn, v2 + vn, two notes, two notes (first edited)
+INDEX_STATES = [0, 1, 2, 4, 6]        # absent, v1, v2, vnz, two notes
+HASH_STATES = [0, 1, 2, 4, 6]
 MAXK = 40                                # more than the effects of any run in this model (condition `effects`)
 
 
@@ -41,7 +46,18 @@ def invariant_state(f, i, h):
     return INDEX_STATES[i] == HASH_STATES[h]
 
 
-VALID = [(f, i, h) for f in range(len(FILE_STATES)) for i in range(4) for h in range(4) if invariant_state(f, i, h)]
+VALID = [(f, i, h) for f in range(len(FILE_STATES)) for i in range(len(INDEX_STATES)) for h in range(len(HASH_STATES))
+         if invariant_state(f, i, h)]
+
+
+def mask_new_zids(text):
+    """a page's text with the VALUES of today's ZIDs masked (which suffix a new note gets depends on how often the
+    counter was bumped before the kill): what an interrupted-and-repeated run must share with an uninterrupted one"""
+    out = []
+    for ln in text.split("\n"):
+        ws = ln.split(" ")
+        out.append(" ".join("240510#??" if (w.startswith("240510#") and len(w) in (9, 10)) else w for w in ws))
+    return "\n".join(out)
 def strip_zids(text):
     """the user's text of a page: the ZID in front of a note, and a YYMMDD modify date in front of that, are zorg's"""
     out = []
